@@ -53,7 +53,10 @@ def predicate(line, obs, allow_known=False):
 
 
 def classify(line, obs, why):
-    return B.c08_predicate(line, obs)[1] if obs else None
+    """the known shape, else the kind of failure (numbers removed) so that one kind is reported once"""
+    import re
+    key = B.c08_predicate(line, obs)[1] if obs else None
+    return key or re.sub(r"\d+", "N", (why or "no output")[:60])
 
 
 features, nontrivial, shrink = B.features, B.nontrivial, B.shrink
